@@ -83,6 +83,7 @@ struct Op {
     Kind k = SET_RFC; int o = 0; long long v = 0; string a;
     bool f_on = false; int f_code = 0; int f_buf = 0; int f_at = 1; int sf = 0;
     int mf = 0;     // IS_EMAIL: the mf-th allocation made by the library during the call fails; the object is retired afterwards
+    int tw = 0;     // FREE_INIT: eav_free is called twice before eav_init ("releases everything exactly once": the second call has nothing left to release)
 };
 struct Plan {
     string prop = "C13", cfg = "nofault";
@@ -101,6 +102,7 @@ static sj::Value op_to_json(const Op &op) {
     if (op.f_on) { sj::Value f = sj::Value::object(); f.set("code", op.f_code); f.set("buf", op.f_buf); if (op.f_at != 1) f.set("at", op.f_at); j.set("f", f); }
     if (op.sf) j.set("sf", op.sf);
     if (op.mf) j.set("mf", op.mf);
+    if (op.tw) j.set("tw", op.tw);
     return j;
 }
 static sj::Value plan_to_json(const Plan &p) {
@@ -128,7 +130,7 @@ static Plan plan_from_json(const sj::Value &j) {
         op.k = (Kind)ki; op.o = (int)e.geti("o"); op.v = e.geti("v"); op.a = e.gets("a");
         const sj::Value *f = e.get("f");
         if (f && f->kind == sj::Value::Obj) { op.f_on = true; op.f_code = (int)f->geti("code"); op.f_buf = (int)f->geti("buf"); op.f_at = (int)f->geti("at", 1); }
-        op.sf = (int)e.geti("sf"); op.mf = (int)e.geti("mf");
+        op.sf = (int)e.geti("sf"); op.mf = (int)e.geti("mf"); op.tw = (int)e.geti("tw");
         if (op.o < 0) op.o = 0;
         op.o %= p.nobj;                 // ops are interpreted modulo what exists
         p.ops.push_back(op);
@@ -432,6 +434,7 @@ static Plan gen_history(const string &prop, const string &cfg, uint64_t seed, lo
     // failing allocations inside eav_is_email (C13, one fault plan in three): the unchanged tree asserts; whatever the
     // library does instead must be what a fresh object does under the same failure
     sim_rng af = sim_derive(rs, 7);
+    sim_rng tf = sim_derive(rs, 11);     // which eav_free steps are made twice (own stream: the other choices of a seed stay as they were)
     unsigned afrate = (prop == "C13" && cfg == "fault" && sim_below(&af, 3) == 0) ? 3 + (unsigned)sim_below(&af, 25) : 0;
     unsigned sfrate = (cfg == "ctxfault") ? 5 + (unsigned)sim_below(&f, 50) : 0;
     // most objects start by confirming a mode, so that work happens
@@ -465,6 +468,7 @@ static Plan gen_history(const string &prop, const string &cfg, uint64_t seed, lo
                 continue;
             }
             break;
+        case FREE_INIT: op.tw = sim_below(&tf, 3) == 0 ? 1 : 0; break;
         default: break;
         }
         p.ops.push_back(op);
@@ -560,7 +564,7 @@ static Plan gen_small(const string &prop, uint64_t seed, long long index) {
         else if (sym < 11) { static const long long AV[3] = { 0, 0x7fc, 1 << 4 }; op.k = SET_ALLOW; op.v = AV[sym - 8]; }
         else if (sym < 17) { op.k = IS_EMAIL; op.a = addr[sym - 11]; }
         else if (sym == 17) op.k = ERRSTR;
-        else if (sym == 18) op.k = FREE_INIT;
+        else if (sym == 18) { op.k = FREE_INIT; op.tw = (int)(i & 1); }
         else {  // two further addresses whose conversion always fails in this world (never used unfaulted)
             op.k = IS_EMAIL; op.a = sym == 19 ? "u@\xd1\x84\xd0\xb0\xd0\xb9\xd0\xbb.\xd1\x80\xd1\x84" : "\xd0\xb8@\xd0\xbc\xd0\xb8\xd1\x80.\xd1\x80\xd1\x84";
             op.f_on = true; op.f_code = sym == 19 ? -100 : -304; op.f_buf = sym == 19 ? 1 : 0;
@@ -645,7 +649,7 @@ struct Stats {
     uint64_t fault_attached = 0, fault_fired = 0, fired_buf[3] = { 0 }, sf_attached = 0, sf_fired = 0, af_attached = 0, af_fired = 0, af_aborted = 0, af_not_comparable = 0, pristine_cmp = 0, pristine_plans = 0, pristine_failed = 0;
     std::map<int, uint64_t> fired_code;
     uint64_t mode_switch[5][4] = { { 0 } };     // from (none=4) -> to, followed by an executed IS_EMAIL
-    uint64_t setup_ok = 0, setup_invalid = 0, free_init = 0, errstr_checked = 0, errstr_after_other = 0;
+    uint64_t setup_ok = 0, setup_invalid = 0, free_init = 0, free_twice = 0, errstr_checked = 0, errstr_after_other = 0;
     uint64_t ctx_created = 0, ctx_destroyed = 0, ctx_by_setup = 0, ctx_by_free = 0, roundtrip_6531 = 0;
     uint64_t ledger_checks = 0, outcome_cmp = 0, contain_checks = 0, low_exec = 0, steps = 0;
     std::set<uint32_t> trans;                   // abstract transition classes
@@ -1152,6 +1156,12 @@ struct Exec {
             if (sim_ledger_unreachable_live(op.o) != 0) { viol("C13:eav_free-leaves-allocation", "blocks allocated for the object are still allocated after eav_free and not reachable from any library static"); }
             sim_ledger_retag(op.o, 999);
             if (sim_ctx_live_for_tag(op.o) != 0) { viol("C18:context-not-released-by-eav_free", "resolver context still live after eav_free"); sim_ctx_retag(op.o, 999); }
+            // a second eav_free of the same object has nothing left to release (the idnkit copy keeps its context handle
+            // after destroying it, so there the step is legal only while no context was ever created)
+            if (op.tw && !(is_idnkit && m.initialized)) {
+                g_sim_tag = op.o; g_sim_in_free = 1; shim_free(e); g_sim_in_free = 0; g_sim_tag = SIM_TAG_NONE;
+                drain_reports(); ST.free_twice++;
+            }
             sim_fill(e, esz);
             g_sim_tag = op.o; shim_init(e); g_sim_tag = SIM_TAG_NONE;
             if (shim_get_rfc(e) != def_rfc || shim_get_tld_check(e) != def_tld || shim_get_allow(e) != def_allow)
@@ -1459,7 +1469,7 @@ static sj::Value stats_json() {
     sj::Value fc = sj::Value::object(); for (auto &kv : ST.fired_code) fc.set(std::to_string(kv.first), kv.second);
     j.set("idn_fault_fired_by_code", fc);
     j.set("setup_fault_attached", ST.sf_attached); j.set("setup_fault_fired", ST.sf_fired);
-    j.set("setup_ok", ST.setup_ok); j.set("setup_invalid_rfc", ST.setup_invalid); j.set("free_init", ST.free_init);
+    j.set("setup_ok", ST.setup_ok); j.set("setup_invalid_rfc", ST.setup_invalid); j.set("free_init", ST.free_init); j.set("free_twice", ST.free_twice);
     j.set("errstr_checked", ST.errstr_checked);
     sj::Value ms = sj::Value::object();
     const char *mn[5] = { "822", "5321", "5322", "6531", "none" };
